@@ -31,6 +31,27 @@ type Attempt struct {
 	Sites int    `json:"sites"` // 1 or 2 sites
 	Auth  bool   `json:"auth"`  // uses htpasswd
 	Hook  bool   `json:"hook"`  // has an `on` hook
+	// Repair: after this failed attempt the operator repairs the htpasswd file it tripped over
+	// (creates the missing one, rewrites the malformed one, adds the missing user).
+	Repair bool `json:"repair,omitempty"`
+	// AuthUse: which htpasswd entry a valid configuration with Auth uses: "" = bob in ht.txt,
+	// or an entry that only exists since a repair: "dave" (ht.txt), "carol-bad" (bad-ht.txt), "carol-missing" (missing-ht.txt)
+	AuthUse string `json:"auth_use,omitempty"`
+}
+
+const shaPassword = "{SHA}W6ph5Mm5Pz8GgiULbPgzG37mj9g="
+
+// repairStep is what the operator does after the failed attempt a.
+func repairStep(a Attempt) (child.Step, string, bool) {
+	switch a.Kind {
+	case "missing-htpasswd":
+		return child.Step{Op: "writefile", Path: "missing-ht.txt", Text: "carol:" + shaPassword + "\n"}, "carol-missing", true
+	case "bad-htpasswd":
+		return child.Step{Op: "writefile", Path: "bad-ht.txt", Text: "alice:" + shaPassword + "\ncarol:" + shaPassword + "\n"}, "carol-bad", true
+	case "htpasswd-user-missing":
+		return child.Step{Op: "writefile", Path: "ht.txt", Text: "bob:" + shaPassword + "\ndave:" + shaPassword + "\n"}, "dave", true
+	}
+	return child.Step{}, "", false
 }
 
 type Case struct {
@@ -41,7 +62,16 @@ func validText(a Attempt, dir string) string {
 	var sb strings.Builder
 	fmt.Fprintf(&sb, "http://localhost:8081 {\n\troot %s\n\theader / X-Marker v%d\n\tstatus 204 /\n\tlog / %s/access.log\n", dir, a.K, dir)
 	if a.Auth {
-		fmt.Fprintf(&sb, "\tbasicauth /secret bob htpasswd=ht.txt\n")
+		switch a.AuthUse {
+		case "dave":
+			fmt.Fprintf(&sb, "\tbasicauth /secret dave htpasswd=ht.txt\n")
+		case "carol-bad":
+			fmt.Fprintf(&sb, "\tbasicauth /secret carol htpasswd=bad-ht.txt\n")
+		case "carol-missing":
+			fmt.Fprintf(&sb, "\tbasicauth /secret carol htpasswd=missing-ht.txt\n")
+		default:
+			fmt.Fprintf(&sb, "\tbasicauth /secret bob htpasswd=ht.txt\n")
+		}
 	}
 	if a.Hook {
 		sb.WriteString("\ton startup true\n")
@@ -53,7 +83,7 @@ func validText(a Attempt, dir string) string {
 	return sb.String()
 }
 
-var failureKinds = []string{"lex", "unknown-directive", "bad-arg", "bad-arg-after-hook", "missing-htpasswd", "bad-htpasswd", "missing-import", "missing-cert", "port-in-use", "port-in-use-first-site-ok", "bind-unavailable", "startup-callback", "tls-mix", "bad-proxy", "bad-tls-arg"}
+var failureKinds = []string{"lex", "unknown-directive", "bad-arg", "bad-arg-after-hook", "missing-htpasswd", "bad-htpasswd", "htpasswd-user-missing", "missing-import", "missing-cert", "port-in-use", "port-in-use-first-site-ok", "bind-unavailable", "startup-callback", "tls-mix", "bad-proxy", "bad-tls-arg"}
 
 func invalidText(a Attempt, dir string) string {
 	base := validText(Attempt{K: 900 + a.K, Sites: a.Sites, Auth: a.Auth, Hook: a.Hook}, dir)
@@ -73,6 +103,8 @@ func invalidText(a Attempt, dir string) string {
 		return inject("basicauth /other carol htpasswd=missing-ht.txt")
 	case "bad-htpasswd":
 		return inject("basicauth /other carol htpasswd=bad-ht.txt")
+	case "htpasswd-user-missing":
+		return inject("basicauth /other dave htpasswd=ht.txt")
 	case "missing-import":
 		return inject("import nothere.conf")
 	case "missing-cert":
@@ -117,6 +149,14 @@ func script(c *Case, dir string, only int) *child.Script {
 	if only >= 0 {
 		atts = atts[only:]
 	}
+	if only >= 0 {
+		// the fresh process starts in the environment the history ends in
+		for _, a := range c.Attempts[:only] {
+			if st, _, ok := repairStep(a); ok && a.Repair {
+				sc.Steps = append(sc.Steps, st)
+			}
+		}
+	}
 	for _, a := range atts {
 		t := text(a, dir)
 		if strings.HasPrefix(a.Kind, "port-in-use") && !occupied {
@@ -128,6 +168,9 @@ func script(c *Case, dir string, only int) *child.Script {
 			op = "load" // the fresh process loads it as its first configuration
 		}
 		sc.Steps = append(sc.Steps, child.Step{Op: op, Text: t})
+		if st, _, ok := repairStep(a); ok && a.Repair && only < 0 {
+			sc.Steps = append(sc.Steps, st)
+		}
 	}
 	return sc
 }
@@ -163,7 +206,7 @@ func runCase(c *Case) (nontrivial bool, err error) {
 	// map observations back to attempts (occupy steps are interleaved)
 	var obs []child.Obs
 	for _, o := range resA.Obs {
-		if o.Op != "occupy" && o.Op != "release" {
+		if o.Op != "occupy" && o.Op != "release" && o.Op != "writefile" {
 			obs = append(obs, o)
 		}
 	}
@@ -284,6 +327,8 @@ func genCase(t *rapid.T) *Case {
 	n := rapid.IntRange(1, 6).Draw(t, "n")
 	running := false
 	k := 0
+	var repaired []string // htpasswd entries that exist only since a repair
+	repairedKind := map[string]bool{}
 	for i := 0; i < n; i++ {
 		lb := fmt.Sprintf("a%d", i)
 		a := Attempt{Sites: rapid.IntRange(1, 2).Draw(t, lb+"sites"), Auth: rapid.Bool().Draw(t, lb+"auth"), Hook: rapid.Bool().Draw(t, lb+"hook")}
@@ -291,9 +336,24 @@ func genCase(t *rapid.T) *Case {
 			a.Kind = "valid"
 			k++
 			a.K = k
+			if a.Auth && len(repaired) > 0 && rapid.Bool().Draw(t, lb+"userep") {
+				a.AuthUse = rapid.SampledFrom(repaired).Draw(t, lb+"rep")
+			}
 		} else {
-			a.Kind = rapid.SampledFrom(failureKinds).Draw(t, lb+"kind")
+			// a kind whose file has been repaired would no longer fail
+			var kindsLeft []string
+			for _, fk := range failureKinds {
+				if !repairedKind[fk] {
+					kindsLeft = append(kindsLeft, fk)
+				}
+			}
+			a.Kind = rapid.SampledFrom(kindsLeft).Draw(t, lb+"kind")
 			a.K = i
+			if _, use, ok := repairStep(a); ok && rapid.Bool().Draw(t, lb+"repair") {
+				a.Repair = true
+				repaired = append(repaired, use)
+				repairedKind[a.Kind] = true
+			}
 		}
 		switch rapid.IntRange(0, 3).Draw(t, lb+"op") {
 		case 0:
@@ -314,6 +374,11 @@ func genCase(t *rapid.T) *Case {
 	final := Attempt{Kind: "valid", K: k, Sites: rapid.IntRange(1, 2).Draw(t, "fsites"), Auth: rapid.Bool().Draw(t, "fauth"), Hook: rapid.Bool().Draw(t, "fhook"), Op: "load"}
 	if running {
 		final.Op = "reload"
+	}
+	if len(repaired) > 0 && rapid.IntRange(0, 3).Draw(t, "fuserep") != 0 {
+		// the final configuration uses what the operator repaired
+		final.Auth = true
+		final.AuthUse = rapid.SampledFrom(repaired).Draw(t, "frep")
 	}
 	c.Attempts = append(c.Attempts, final)
 	return c
